@@ -128,6 +128,9 @@ class ShapeInterp:
         if isinstance(e, ast.Compare) and len(e.ops) == 1:
             a, b = self.ev(e.left), self.ev(e.comparators[0])
             op = e.ops[0]
+            if isinstance(op, (ast.Is, ast.IsNot)):
+                r = (a is b) or (a is None and b is None)
+                return r if isinstance(op, ast.Is) else not r
             if isinstance(op, (ast.Eq, ast.NotEq)):
                 r = (a == b)
                 return r if isinstance(op, ast.Eq) else not r
@@ -220,6 +223,15 @@ class ShapeInterp:
             return c.args[posidx]
         return None
 
+    def args_of(self, c: ast.Call) -> list:
+        out = []
+        for a in c.args:
+            if isinstance(a, ast.Starred):
+                out += list(self.ev(a.value))
+            else:
+                out.append(self.ev(a))
+        return out
+
     def call(self, c: ast.Call):
         if self.call_hook is not None:
             r = self.call_hook(self, c)
@@ -262,8 +274,17 @@ class ShapeInterp:
                     return T([sh[a] for a in axes])
                 if m in ("contiguous", "clone", "detach"):
                     return recv
+                if m == "repeat_interleave":
+                    rep = self.kw(c, "repeats", 0)
+                    dm = self.kw(c, "dim", 1)
+                    k = norm_axis(self.const_int(dm), len(sh)) if dm is not None else None
+                    if k is None:
+                        raise Uninterpretable("repeat_interleave without dim")
+                    r = self.ev(rep)
+                    new = r if sh[k] == 1 else "%s*%s" % (sh[k], r)
+                    return T(sh[:k] + (new,) + sh[k + 1:])
                 if m in ("reshape", "view"):
-                    dims = [self.ev(a) for a in c.args]
+                    dims = self.args_of(c)
                     if len(dims) == 1 and isinstance(dims[0], tuple):
                         dims = list(dims[0])
                     if dims.count(-1) > 1:
@@ -299,6 +320,17 @@ class ShapeInterp:
             l = list(v.shape)
             l[a], l[b] = l[b], l[a]
             return T(l)
+        if fn == "torch.diag_embed" and c.args:
+            v = self.ev(c.args[0])
+            kw = {k.arg: self.const_int(k.value) for k in c.keywords}
+            if isinstance(v, T) and kw.get("dim1", -2) == -2 and kw.get("dim2", -1) == -1 and kw.get("offset", 0) == 0:
+                return T(v.shape + (v.shape[-1],))
+        if fn in ("torch.linalg.solve",) and len(c.args) == 2:
+            a, b = self.ev(c.args[0]), self.ev(c.args[1])
+            if isinstance(a, T) and isinstance(b, T):
+                if len(a.shape) < 2 or a.shape[-1] != a.shape[-2]:
+                    raise ShapeError("solve with a non-square matrix %s" % (a.shape,))
+                return T(matmul_shape(a.shape, b.shape))
         if fn == "list" and len(c.args) == 1:
             return tuple(self.ev(c.args[0]))
         if fn == "len" and len(c.args) == 1:
@@ -328,6 +360,19 @@ class ShapeInterp:
                 raise Raised(s)
             if isinstance(s, ast.Assign) and len(s.targets) == 1 and isinstance(s.targets[0], ast.Name):
                 self.env[s.targets[0].id] = self.ev(s.value)
+                continue
+            if isinstance(s, ast.Assign) and len(s.targets) == 1 and isinstance(s.targets[0], ast.Tuple):
+                v = self.ev(s.value)
+                tg = s.targets[0].elts
+                if not isinstance(v, (tuple, list)) or len(v) != len(tg) or not all(isinstance(t, ast.Name) for t in tg):
+                    raise Uninterpretable("tuple assignment %s" % ast.unparse(s))
+                for t, x in zip(tg, v):
+                    self.env[t.id] = x
+                continue
+            if isinstance(s, ast.Try):
+                r = self.run(s.body)      # the normal path; handlers retry the same shapes
+                if r is not None:
+                    return r
                 continue
             if isinstance(s, ast.If):
                 t = self.ev(s.test)
